@@ -27,7 +27,7 @@ def _shard(args):
     i, seed, sim_args, out = args
     t0 = time.time()
     with open(out, "w") as fo:
-        p = subprocess.run([os.path.join(vlib.BUILD, "sim"), "-seed", str(seed)] + [str(a) for a in sim_args],
+        p = subprocess.run([vlib.exe("sim"), "-seed", str(seed)] + [str(a) for a in sim_args],
                            stdout=fo, stderr=subprocess.PIPE, env=vlib.GOENV, timeout=3000)
     sim_rc, sim_err = p.returncode, p.stderr.decode("utf-8", "replace")[-2000:]
     t1 = time.time()
